@@ -230,6 +230,56 @@ fn shrink_pipe(spec: &Value) -> Vec<Value> {
             out.push(s);
         }
     }
+    // the library-API driver: drop generated drain/sync calls one at a time
+    if let Some(api) = &spec.api {
+        for i in 0..api.calls.len() {
+            let mut s = spec.clone();
+            s.api.as_mut().unwrap().calls.remove(i);
+            reseed(&mut s);
+            out.push(s);
+        }
+        if api.adaptive {
+            let mut s = spec.clone();
+            s.api.as_mut().unwrap().adaptive = false;
+            reseed(&mut s);
+            out.push(s);
+        }
+    }
+    // configuration back to the plainest value, one knob at a time
+    {
+        let mut knob = |f: &dyn Fn(&mut PipeSpec) -> bool| {
+            let mut s = spec.clone();
+            if f(&mut s) {
+                reseed(&mut s);
+                out.push(s);
+            }
+        };
+        knob(&|s| std::mem::replace(&mut s.cfg.verbosity, 0) != 0);
+        knob(&|s| std::mem::replace(&mut s.cfg.bufwriter_cap, 4 << 20) != 4 << 20);
+        knob(&|s| std::mem::replace(&mut s.cfg.fallback_frac, 0.0) != 0.0);
+        knob(&|s| std::mem::replace(&mut s.cfg.sync_per_sample, false));
+        knob(&|s| std::mem::replace(&mut s.cfg.compression_level, 1) != 1);
+        knob(&|s| std::mem::replace(&mut s.gen.wild_names, false));
+        knob(&|s| std::mem::replace(&mut s.gen.shared_small, false));
+        knob(&|s| std::mem::replace(&mut s.gen.name_style, 0) != 0);
+        knob(&|s| {
+            let plain = crate::gen::fasta::Presentation::plain();
+            let changed = s.presentations.iter().any(|p| *p != plain);
+            for p in s.presentations.iter_mut() {
+                *p = plain.clone();
+            }
+            changed
+        });
+    }
+    // schedule: first look for a schedule with few preemptions that still fails (long
+    // uninterrupted stretches), then cut the explicit prefix
+    if !matches!(spec.sched.policy, Policy::Sticky { p: 995 }) {
+        for d in 0..3u64 {
+            let mut s = spec.clone();
+            s.sched = crate::sched::SchedSpec { policy: Policy::Sticky { p: 995 }, seed: spec.sched.seed.wrapping_add(d) };
+            out.push(s);
+        }
+    }
     if let Policy::Replay { choices } = &spec.sched.policy {
         let mut n = choices.len();
         while n > 0 {
